@@ -381,6 +381,119 @@ theorem connIn_iff (h : RGEquiv A B) : ConnIn A ↔ ConnIn B := by
 
 end RGEquiv
 
+/-- the same, but capabilities and locks are only compared on the listed units (outside them one side may keep
+information about units that are not part of the graph) -/
+structure RGEquivOn (A B : RG N) : Prop where
+  names : ∀ u, u ∈ A.names ↔ u ∈ B.names
+  conn : ∀ a b, A.conn a b = B.conn a b
+  sup : ∀ u ∈ A.names, ∀ c, A.sup u c = B.sup u c
+  lock : ∀ t, ∀ u ∈ A.names, A.lock t u = B.lock t u
+
+theorem RGEquiv.on {A B : RG N} (h : RGEquiv A B) : RGEquivOn A B :=
+  ⟨h.names, h.conn, fun u _ c => h.sup u c, fun t u _ => h.lock t u⟩
+
+namespace RGEquivOn
+variable {A B : RG N}
+
+theorem symm (h : RGEquivOn A B) : RGEquivOn B A :=
+  ⟨fun u => (h.names u).symm, fun a b => (h.conn a b).symm, fun u hu c => (h.sup u ((h.names u).2 hu) c).symm,
+    fun t u hu => (h.lock t u ((h.names u).2 hu)).symm⟩
+
+theorem conn_eq (h : RGEquivOn A B) : A.conn = B.conn := funext fun a => funext fun b => h.conn a b
+
+theorem walk_iff (h : RGEquivOn A B) (r : List N) : A.Walk r ↔ B.Walk r := by
+  unfold RG.Walk; rw [h.conn_eq]
+
+theorem acyclic_iff (h : RGEquivOn A B) : A.Acyclic ↔ B.Acyclic := by
+  unfold RG.Acyclic
+  simp only [h.walk_iff]
+
+theorem connIn (h : RGEquivOn A B) (hc : ConnIn A) : ConnIn B := by
+  intro a b hab
+  rw [← h.conn] at hab
+  exact (h.names b).1 (hc a b hab)
+
+/-- the units of a walk that starts at a listed unit are listed -/
+theorem walk_units (hc : ConnIn A) {r : List N} {u : N} (hu : u ∈ A.names) (hh : r.head? = some u) (hw : A.Walk r) :
+    ∀ x ∈ r, x ∈ A.names := by
+  cases r with
+  | nil => intro x hx; cases hx
+  | cons a t =>
+    simp at hh; subst hh
+    intro x hx
+    rcases List.mem_cons.1 hx with rfl | hx
+    · exact hu
+    · exact walk_mem_names A hc t _ hw x hx
+
+theorem isRoute_iff (h : RGEquivOn A B) (hc : ConnIn A) {c u : N} (hu : u ∈ A.names) {r : List N}
+    (hh : r.head? = some u) : A.IsRoute c r ↔ B.IsRoute c r := by
+  unfold RG.IsRoute
+  constructor
+  · rintro ⟨h1, h2, h3⟩
+    have hin := walk_units hc hu hh h3
+    exact ⟨h1, fun x hx => by rw [← h.sup x (hin x hx)]; exact h2 x hx, (h.walk_iff r).1 h3⟩
+  · rintro ⟨h1, h2, h3⟩
+    have h3' := (h.walk_iff r).2 h3
+    have hin := walk_units hc hu hh h3'
+    exact ⟨h1, fun x hx => by rw [h.sup x (hin x hx)]; exact h2 x hx, h3'⟩
+
+theorem isMaxRoute_iff (h : RGEquivOn A B) (hc : ConnIn A) {c u : N} (hu : u ∈ A.names) {r : List N}
+    (hh : r.head? = some u) : A.IsMaxRoute c r ↔ B.IsMaxRoute c r := by
+  unfold RG.IsMaxRoute
+  rw [h.isRoute_iff hc hu hh]
+  refine and_congr_right fun _ => ?_
+  constructor
+  · intro hm x hx v hv
+    have hv' := (h.names v).2 hv
+    rw [← h.conn, ← h.sup v hv']
+    exact hm x hx v hv'
+  · intro hm x hx v hv
+    rw [h.conn, h.sup v hv]
+    exact hm x hx v ((h.names v).1 hv)
+
+theorem lockCount_eq (h : RGEquivOn A B) (t : LockType) {r : List N} (hin : ∀ x ∈ r, x ∈ A.names) :
+    A.lockCount t r = B.lockCount t r := by
+  unfold RG.lockCount
+  congr 1
+  apply List.filter_congr
+  intro x hx
+  exact h.lock t x (hin x hx)
+
+theorem lockCount_route (h : RGEquivOn A B) (hc : ConnIn A) (t : LockType) {c u : N} (hu : u ∈ A.names) {r : List N}
+    (hh : r.head? = some u) (hr : A.IsRoute c r) : A.lockCount t r = B.lockCount t r :=
+  h.lockCount_eq t (walk_units hc hu hh hr.2.2)
+
+theorem locksExact_iff (h : RGEquivOn A B) (hc : ConnIn A) {c u : N} (hu : u ∈ A.names) :
+    A.LocksExact c u ↔ B.LocksExact c u := by
+  unfold RG.LocksExact
+  constructor
+  · intro hA r hr hh
+    have hr' := (h.isMaxRoute_iff hc hu hh).2 hr
+    rw [← h.lockCount_route hc .read hu hh hr'.1, ← h.lockCount_route hc .write hu hh hr'.1]
+    exact hA r hr' hh
+  · intro hB r hr hh
+    rw [h.lockCount_route hc .read hu hh hr.1, h.lockCount_route hc .write hu hh hr.1]
+    exact hB r ((h.isMaxRoute_iff hc hu hh).1 hr) hh
+
+theorem isOut_iff (h : RGEquivOn A B) (o : N) : A.isOut o = true ↔ B.isOut o = true := by
+  rw [LoaderRoutes.isOut_iff, LoaderRoutes.isOut_iff, h.conn_eq]
+  simp only [h.names]
+
+theorem isIn_iff (h : RGEquivOn A B) (o : N) : A.isIn o = true ↔ B.isIn o = true := by
+  rw [LoaderRoutes.isIn_iff, LoaderRoutes.isIn_iff, h.conn_eq]
+  simp only [h.names]
+
+theorem reachesOut_iff (h : RGEquivOn A B) (hc : ConnIn A) {c u : N} (hu : u ∈ A.names) :
+    A.ReachesOut c u ↔ B.ReachesOut c u := by
+  unfold RG.ReachesOut
+  constructor
+  · rintro ⟨r, hr, hh, o, hl, ho⟩
+    exact ⟨r, (h.isRoute_iff hc hu hh).1 hr, hh, o, hl, (h.isOut_iff o).1 ho⟩
+  · rintro ⟨r, hr, hh, o, hl, ho⟩
+    exact ⟨r, (h.isRoute_iff hc hu hh).2 hr, hh, o, hl, (h.isOut_iff o).2 ho⟩
+
+end RGEquivOn
+
 end LoaderRoutes
 end Loader
 end ProcSim
